@@ -192,6 +192,7 @@ func (self *Chunk) verifyOutput(output LazyArgumentMap) bool {
 	}
 	if output == nil {
 		self.metadata.WriteErrorString("Output not found.")
+		return false
 	} else {
 		outParams := self.Stage().ChunkOuts
 		err, alarms := output.ValidateOutputs(self.fork.node.top.types,
